@@ -274,6 +274,9 @@ class SeriesSchema(ArraySchema[pd.Series]):
             # validate the index of the already parsed (and, unless inplace,
             # copied) series so that the parsed values are returned and the
             # caller's object is not modified by index coercion.
+            if sample is not None:
+                # drop_invalid_rows may have left fewer rows than the sample
+                sample = min(sample, len(validated_obj))
             try:
                 validated_obj = self.index.validate(
                     validated_obj,
